@@ -31,6 +31,19 @@ pub struct IsographDatabase<TCompilationProfile: CompilationProfile> {
 #[derive(Debug, Default)]
 pub struct IsoLiteralMap(pub HashMap<RelativePathToSourceFile, SourceId<IsoLiteralsSource>>);
 
+impl IsoLiteralMap {
+    /// The sources ordered by path. The iteration order of the map differs from run to run,
+    /// and anything that depends on the order in which files are visited (e.g. which of
+    /// several definitions of a client field is kept and which is reported) must not.
+    pub fn iter_sorted_by_path(
+        &self,
+    ) -> impl Iterator<Item = (&RelativePathToSourceFile, &SourceId<IsoLiteralsSource>)> {
+        let mut sources = self.0.iter().collect::<Vec<_>>();
+        sources.sort_by_key(|(relative_path, _)| relative_path.lookup());
+        sources.into_iter()
+    }
+}
+
 #[derive(Debug, Clone, PartialEq, Eq, Source)]
 pub struct SchemaSource {
     #[key]
